@@ -132,6 +132,13 @@ def judge(case, impl_res, ans):
             continue
         if m.get('ptp_exact') is False or (v['unwhiten'] and m.get('one_term') is False):
             continue        # floating-point class: the subtraction / the dot product rounds on this waveform - no exact verdict
+        if m.get('raises') is True:
+            # no stored column in use carries signal (hypothesis `hk` of sparse_record_ok fails): outside the property - there
+            # is no record; the model (`sparseRaises`, sparse_raises_of_no_signal) says the real code raises ValueError
+            if r.get('raised') != 'ValueError':
+                return 'CORR: sparse template %d without a kept column: the model says ValueError, the real code %s' % (
+                    v['t'], ('raised ' + r['raised']) if 'raised' in r else 'returned a record')
+            continue
         if m['model_spec'] is not True:
             return 'MACHINERY: model record rejected by its own spec (contradicts the theorem), variant %d' % i
         if 'raised' in r:
